@@ -17,13 +17,25 @@ struct Doc<T> {
 
 fn newtype_routes<T>(s: &str, doc: &str) -> Value
 where
-    T: FromStr + Display + serde::Serialize + Deref<Target = String> + for<'de> Deserialize<'de>,
+    T: FromStr + Display + serde::Serialize + Deref<Target = String> + for<'de> Deserialize<'de> + Clone + Eq + std::borrow::Borrow<str> + std::borrow::Borrow<String> + AsRef<String>,
 {
     let parse = match s.parse::<T>() {
         Ok(v) => {
             let ser = serde_json::to_value(&v).expect("serialize");
+            // the other public views of the same value, and the TOML serialisation (the format libcnb writes)
+            #[derive(serde::Serialize)]
+            struct Out<'a, T> {
+                v: &'a T,
+            }
+            let toml_ser = toml::to_string(&Out { v: &v }).ok().and_then(|d| d.parse::<toml::Table>().ok()).and_then(|t| t.get("v").and_then(|x| x.as_str().map(String::from)));
+            let bs: &str = v.borrow();
+            let bst: &String = v.borrow();
+            let ar: &String = v.as_ref();
+            let c = v.clone();
             json!({"ok": true, "display": hex(v.to_string().as_bytes()), "deref": hex(v.deref().as_bytes()),
-                   "ser": hex(ser.as_str().expect("serialises as string").as_bytes())})
+                   "ser": hex(ser.as_str().expect("serialises as string").as_bytes()),
+                   "borrow_str": hex(bs.as_bytes()), "borrow_string": hex(bst.as_bytes()), "as_ref": hex(ar.as_bytes()), "clone": hex(c.to_string().as_bytes()),
+                   "clone_eq": c == v, "toml_ser": toml_ser.map(|x| hex(x.as_bytes()))})
         }
         Err(_) => json!({"ok": false}),
     };
